@@ -459,3 +459,33 @@ pub fn tail_family_case(i: usize) -> Vec<u8> {
     v.extend(tail);
     v
 }
+
+// ---- magnitude family (deterministic): one long class-pure run whose length sits on a power-of-two / byte boundary,
+// optionally shifted by one leading character, followed by a short run of another class. Counters, look-aheads and
+// length fields that are narrower than the input show here.
+const MAG_ALPHABETS: [&[u8]; 6] = [b"7", b"ABCDEFGHIJKLMNOPQRSTUVWXYZ", b"abcdefghijklmnopqrstuvwxyz", b".,-/:+", b"*>\r ", &[0xE9, 0xFC, 0x80, 0xFF]];
+const MAG_LENS: [usize; 16] = [127, 128, 129, 254, 255, 256, 257, 258, 510, 511, 512, 513, 1022, 1023, 1024, 1025];
+const MAG_TAILS: [usize; 3] = [0, 1, 8];
+pub fn magnitude_family_count() -> usize {
+    6 * 6 * MAG_LENS.len() * MAG_TAILS.len() * 2
+}
+pub fn magnitude_family_case(mut i: usize) -> Vec<u8> {
+    let lead = i % 2;
+    i /= 2;
+    let tail = MAG_TAILS[i % MAG_TAILS.len()];
+    i /= MAG_TAILS.len();
+    let len = MAG_LENS[i % MAG_LENS.len()];
+    i /= MAG_LENS.len();
+    let (a, b) = (MAG_ALPHABETS[i % 6], MAG_ALPHABETS[(i / 6) % 6]);
+    let mut v = Vec::with_capacity(len + tail + 1);
+    if lead == 1 {
+        v.push(b'a');
+    }
+    for j in 0..len {
+        v.push(a[j % a.len()]);
+    }
+    for j in 0..tail {
+        v.push(b[(j + 2) % b.len()]);
+    }
+    v
+}
